@@ -68,6 +68,20 @@ impl<K: Ord + Clone, V: Copy> BTreeIndex<K, V> {
 
     /// Returns all values in the given range.
     pub fn range<R: RangeBounds<K>>(&self, range: R) -> Vec<(K, V)> {
+        use std::ops::Bound;
+        // An inverted (or empty-exclusive) range selects no key. `BTreeMap::range`
+        // panics on such bounds, but only once the map has allocated a root node,
+        // so answer it here the way a filtered scan would.
+        let empty = match (range.start_bound(), range.end_bound()) {
+            (Bound::Excluded(s), Bound::Excluded(e)) => s >= e,
+            (Bound::Included(s) | Bound::Excluded(s), Bound::Included(e) | Bound::Excluded(e)) => {
+                s > e
+            }
+            _ => false,
+        };
+        if empty {
+            return Vec::new();
+        }
         self.map
             .read()
             .range(range)
